@@ -43,7 +43,9 @@ func decodeAll(r io.Reader, bound int) (toks []styTok, err error, overrun bool) 
 
 func genStyDoc(rc *RC) []byte {
 	ch := rc.Ch
-	pieces := []string{"*", "_", "~", "`", "*", "_", " ", " ", "\n", "\n", ">", "> ", ">>", "```", "```\n", "a", "b", "word", "x y", "\t", "\r\n", " ", " ", "\xff", "é", "**", "*a*", "_b_", "~c~", "`d`", "* ", " *", "```go\n", "\n```\n", "\n> ", "```x", ">```\n"}
+	pieces := []string{"*", "_", "~", "`", "*", "_", " ", " ", "\n", "\n", ">", "> ", ">>", "```", "```\n", "a", "b", "word", "x y", "\t", "\r\n", " ", " ", "\xff", "é", "**", "*a*", "_b_", "~c~", "`d`", "* ", " *", "```go\n", "\n```\n", "\n> ", "```x", ">```\n",
+		// truncated multi-byte sequences (the start of a rune whose rest never comes)
+		"\xe3\x80", "\xc3", "\xf0\x9f\x98", ">\xe3", "> \xf0\x9f"}
 	n := ch.Range("workload", 0, 24)
 	if ch.Chance("workload", 1, 8) {
 		n = ch.Range("workload", 24, 80)
@@ -51,6 +53,11 @@ func genStyDoc(rc *RC) []byte {
 	var b []byte
 	for i := 0; i < n; i++ {
 		b = append(b, pieces[ch.Int("workload", len(pieces))]...)
+	}
+	if ch.Chance("workload", 1, 6) {
+		// the document ends inside a rune, possibly right after a quote marker
+		b = append(b, []string{">", "> ", "\n>", "", ">>"}[ch.Int("workload", 5)]...)
+		b = append(b, []string{"\xe3\x80", "\xc3", "\xf0\x9f\x98", "\xe3"}[ch.Int("workload", 4)]...)
 	}
 	if ch.Chance("workload", 1, 400) {
 		// a very long line, up to and beyond the scanner's token limit
